@@ -272,9 +272,24 @@ class ResolverMixin:  # pylint: disable=too-few-public-methods
                 new_obj.propagated = True
                 assert obj.class_origin
                 new_obj.class_origin = obj.class_origin
-                for qualifier in new_obj.qualifiers.values():
-                    qualifier.propagated = True
+                self._set_inherited_qualifiers(new_obj)
+                if isinstance(new_obj, CIMMethod):
+                    for param in new_obj.parameters.values():
+                        self._set_inherited_qualifiers(param)
                 new_objects[obj_name] = new_obj
+
+    @staticmethod
+    def _set_inherited_qualifiers(obj):
+        """
+        Set the qualifiers of an object that has been copied from the
+        superclass: Qualifiers that are restricted to the class that defines
+        them (i.e. not tosubclass) are removed, the others are propagated.
+        """
+        for qname, qualifier in list(obj.qualifiers.items()):
+            if qualifier.tosubclass is False:
+                del obj.qualifiers[qname]
+            else:
+                qualifier.propagated = True
 
     def _set_new_object(self, new_obj, inherited_obj, new_class, superclass,
                         qualifier_store, propagated, type_str):
@@ -367,6 +382,8 @@ class ResolverMixin:  # pylint: disable=too-few-public-methods
             else:  # not tosubclass, i.e. restricted.
                 if inh_qname in new_quals:
                     if inh_qual.overridable or inh_qual.overridable is None:
+                        self._init_qualifier(new_quals[inh_qname],
+                                             qualifier_store)
                         new_quals[inh_qname].propagated = True
 
                     else:
